@@ -1,6 +1,7 @@
 """C18 - rexpy coverage figures equal true match counts and account for all examples.
 Extractor.coverage / incremental_coverage / full_incremental_coverage / n_examples on generated
 multisets vs an independent recount with re, and vs Rexpy/Coverage.v fed with the match oracle."""
+import collections
 import contextlib
 import io
 import re
@@ -35,9 +36,19 @@ def run(ctx):
             if rng.random() < 0.2:
                 arg.insert(rng.randint(0, len(arg)), None)
         case = {'examples': repr(arg), 'opts': opts}
+        kw = {}
+        if it % 4 == 3:
+            # small size settings, so that the examples are sampled and failures are added back in later passes
+            from tdda.rexpy.rexpy import Size
+            spec = dict(do_all=rng.choice([2, 5]), do_all_exceptions=rng.choice([2, 4]),
+                        n_per_length=rng.choice([1, 2]), max_sampled_attempts=rng.choice([1, 2]))
+            kw = {'size': Size(**spec), 'seed': rng.choice([0, 3])}
+            case['size'] = spec
+            case['seed'] = kw['seed']
+            ctx.bump('sampling_sizes')
         try:
             with contextlib.redirect_stdout(io.StringIO()):
-                x = Extractor(arg, **opts)
+                x = Extractor(arg, **dict(opts, **kw))
         except Exception as e:
             ctx.count(repr(case), True)
             ctx.fail(case, 'Extractor raised %s: %s' % (type(e).__name__, str(e)[:200]), finding=None)
@@ -48,9 +59,19 @@ def run(ctx):
         ctx.bump('form.' + form)
         ctx.bump('nrex.%d' % min(len(rexes), 5))
         # ---- the reported number of examples equals the number supplied (after explicit discards)
+        sampled = bool(kw) and set(x.examples.strings) < set(want_counter) and \
+            all(want_counter[s_] == f_ for s_, f_ in zip(x.examples.strings, x.examples.freqs))
+        if sampled:
+            # recorded finding: under sampling the figures describe the working sample, not the supplied examples.
+            # They must still be exact and consistent for that sample (checked below).
+            ctx.fail(case, 'under sampling n_examples is %r / %r, supplied %r / %r distinct'
+                     % (x.n_examples(), x.n_examples(dedup=True), sum(want_counter.values()), len(want_counter)),
+                     finding='c18-sampled-figures')
+            want_counter = collections.OrderedDict(zip(x.examples.strings, x.examples.freqs))
         if x.n_examples() != sum(want_counter.values()) or x.n_examples(dedup=True) != len(want_counter):
-            ctx.fail(case, 'n_examples %r / %r, supplied %r / %r distinct'
-                     % (x.n_examples(), x.n_examples(dedup=True), sum(want_counter.values()), len(want_counter)))
+            ctx.fail(case, 'n_examples %r / %r, %s %r / %r distinct'
+                     % (x.n_examples(), x.n_examples(dedup=True), 'the working sample has' if sampled else 'supplied',
+                        sum(want_counter.values()), len(want_counter)))
         if not rexes:
             continue
         strings = list(want_counter.keys())
